@@ -15,6 +15,9 @@ ValidationFailure).  Three streams:
  C. the same fetcher over a real NDNApp with a recording dummy face on the virtual-time loop: ties
     the keyword arguments to what app.express_interest actually sends (CanBePrefix, MustBeFresh,
     lifetime) and the real timeout / nack / validation paths of app.py.
+ D/E. (c19_conc.py) several fetches at once over one fake / one real application.
+ F. (c19_sig.py) really signed segments (own encoder, 33 signature shapes) with the application's default validator and
+    the shipped checkers in force; "must be refused" recomputed on the wire.
 """
 import asyncio
 import itertools
@@ -61,7 +64,25 @@ RULE = ('A: objects of N=0..12 segments x every discovery answer (segment k<N, u
         'limits {(3,1), (1,3), (2,2)} x aggregation x later fetch with the same / half the lifetime, plus sampled schedules (one object '
         'or two below one parent, fetched by its own name or by the parent, different lifetimes, starts up to after a lifetime); besides '
         'the per-fetch oracles: re-expression only after the lifetime, no loop exception, pending-Interest table empty when all fetches '
-        'ended. non-trivial = at least one Interest answered with Data and at least two Interests sent; distinct by case hash')
+        'ended. SIGNED SEGMENTS, SHIPPED VALIDATORS IN FORCE (F, c19_sig.py): one fetch over the real v1 NDNApp whose producer answers with '
+        'Data packets encoded by the harness itself, element by element, each with a signature shape - DigestSha256 correct (plain / with '
+        'KeyLocator / 2-octet SignatureType), digest wrong in the first / a middle / the last bit, all zeros, computed over the content only '
+        '/ over the packet without SignatureInfo / over tampered content / tampered FinalBlockId / the name of another segment, 31 / 33 / 1 '
+        'octets long, EMPTY SignatureValue (17 00), NO SignatureValue element; HmacWithSha256 correct / one bit wrong / other key / truncated / '
+        'empty / no SignatureValue / tampered content / plain digest instead of the MAC / no or foreign KeyLocator; no SignatureInfo, '
+        'SignatureValue without SignatureInfo, signature types nobody verifies - x the validator in force: the application DEFAULT '
+        '(segment_fetcher called without validator / with validator=None), sha256_digest_checker, union_checker(digest), union_checker(digest, '
+        'accept-all), union_checker(accept-all, digest), HmacChecker.from_key, union_checker(digest, HmacChecker), a strict validator of the '
+        'harness passed explicitly / installed as app.data_validator - x position of the shaped segment (first, middle, last of 3; the only '
+        'segment; an unsegmented object) x discovery answered by that very segment / by another one x losses before the answer {0, retry-1} '
+        '(table), plus sampled objects of 0..6 segments where every segment draws its shape (several bad ones: the first one met decides) with '
+        'losses around the limit.  Whether a packet MUST be refused is recomputed on the wire (own TLV walk, hashlib / hmac over Name .. '
+        'SignatureInfo): it claims the signature type the validator in force verifies and its SignatureValue is not that function of the signed '
+        'portion (or is absent) => refuse; claims it and verifies => accept; otherwise the verdict is left to the validator and read off '
+        'what the fetch did.  Oracles: a packet that must be refused is never yielded (unverified-segment-yielded) and ends the fetch with '
+        'ValidationFailure at its position (validation-failure-not-propagated), the scenario so obtained goes through Spec.expected / headline '
+        '/ retry discipline / model trace like stream C, strict validator asked once per packet. '
+        'non-trivial = at least one Interest answered with Data and at least two Interests sent; distinct by case hash')
 ASSUMPTIONS = ['one fetch awaits one coroutine at a time (sequential by construction); SEVERAL fetches over one application are '
                'interleaved by asyncio - streams D and E run them on the virtual-time loop and judge each fetch against the scenario it '
                'met (read off the face log: which Data / Nack reached the application inside the lifetime of which Interest)',
@@ -695,17 +716,24 @@ def run(ctx):
     try:
         c19_conc.stream_d(ctx)
         c19_conc.stream_e(ctx)
+        # really signed segments, the shipped validators in force (the application's default, the shipped checkers)
+        from harness.props import c19_sig
+        c19_sig.stream_f(ctx)
     except Runaway:
         ctx.notes.append('stopped early: the fetcher under test does not terminate on lost Interests')
 
 
 def replay(ctx, data):
-    """Single-case replay for the concurrent streams (D, E); the sequential streams are re-run as a whole."""
+    """Single-case replay for the concurrent streams (D, E) and the signed-segment stream (F); the sequential streams are
+    re-run as a whole."""
     from harness.lib.core import unjson
     case = unjson(data.get('case') or (data.get('broken') or [{}])[0].get('case') or {})
     if isinstance(case, dict) and str(case.get('stream', '')).startswith('concurrent'):
         from harness.props import c19_conc
         c19_conc.replay(ctx, case)
+    elif isinstance(case, dict) and case.get('stream') == 'real NDNApp, signed segments':
+        from harness.props import c19_sig
+        c19_sig.replay(ctx, case)
     else:
         ctx.notes.append('replay: no single-case replay for this stream; full run repeated with the same seed')
         run(ctx)
